@@ -762,3 +762,59 @@ def gen_float(rng, tier):
         vals = [rnd() for _ in range(rng.choice([1, 5, 12]))]
         ops.append(f"float.auto e={hx(e)} m={m} {explicit(vals)}")
     return ops
+
+
+# ---------------------------------------------------------------- C06 adaptive
+def gen_adaptive(rng, tier, slice_only=False):
+    ops = []
+    big = tier != "quick"
+    lens = [1, 2, 3, 5, 19, 20, 100, 101, 255, 256, 1000, 4096, 4097] + ([9999, 10000, 10001, 20000, 65537] if big else [10001])
+    ops.append("adaptive.rt 0")
+    reps = 1 if slice_only else (2 if tier == "quick" else 8)
+    for n in lens:
+        for _ in range(reps):
+            # DICT leaf
+            ops.append(f"adaptive.rt @u:{hx(rng.getrandbits(60))}:{hx(n)}:{hx(rng.choice([0, 7, 1 << 40]))}:{hx(rng.choice([1, 3, 9]))}")
+            ops.append(f"adaptive.rt @c:1:{hx(n)}:{hx(rng.choice([0, 5, M64]))}:0")
+            # BITMAP leaf: strictly ascending below 65536, dense
+            if n <= 9999 and n >= 2:
+                span = min(65535, n * rng.choice([1, 2, 5, 15, 19, 21, 40]))
+                if span >= n:
+                    lo = rng.randint(0, 65535 - span)
+                    vals = sorted(rng.sample(range(lo, lo + span + 1), n))
+                    ops.append(f"adaptive.rt {explicit(vals)}")
+                    # descending / with one duplicate: must NOT lose order or duplicates
+                    ops.append(f"adaptive.rt {explicit(vals[::-1])}")
+                    dup = list(vals)
+                    dup[rng.randrange(1, n)] = dup[0] if n > 1 else dup[0]
+                    ops.append(f"adaptive.rt {explicit(sorted(dup))}")
+            # DELTA leaves
+            ops.append(f"adaptive.rt @a:{hx(rng.getrandbits(60))}:{hx(n)}:{hx(rng.choice([0, 1000, 1 << 50]))}:{hx(n * rng.choice([1, 10, 900, 5000]))}")
+            ops.append(f"adaptive.rt @d:{hx(rng.getrandbits(60))}:{hx(n)}:{hx(rng.choice([0, 1000, 1 << 50]))}:{hx(n * rng.choice([1, 10, 900, 5000]))}")
+            # PFOR leaf (clustered, one or few outliers) incl. spans of 256^k - 1
+            ops.append(f"adaptive.rt @o:{hx(rng.getrandbits(60))}:{hx(n)}:{hx(rng.choice([0, 1000]))}:{hx(rng.choice([255, 256, 65535, 1 << 24, 1 << 40, M64 // 2]))}")
+            # FOR / TAGGED leaves
+            ops.append(f"adaptive.rt @r:{hx(rng.getrandbits(60))}:{hx(n)}:{hx(rng.choice([0, 1 << 33]))}:{hx(max(1, n * rng.choice([1, 50, 99, 100, 101])))}")
+            ops.append(f"adaptive.rt @r:{hx(rng.getrandbits(60))}:{hx(n)}:0:{hx(rng.choice([M64, 1 << 60, 1 << 33]))}")
+            # periodic data that misleads the sampler above 10000 elements
+            ops.append(f"adaptive.rt @p:{hx(rng.getrandbits(60))}:{hx(n)}:{hx(rng.choice([0, 1 << 56]))}:{hx(rng.choice([1 << 62, 1 << 40, 1600]))}")
+    if big:
+        # an array whose distinct values repeat with the sampler's period
+        for n in (20000, 30001):
+            step = n // (n // 10)
+            vals = [((i // step) % 3) if i % step == 0 else (1 << 56) + i for i in range(n)]
+            ops.append(f"adaptive.rt {explicit(vals)}")
+    if slice_only:
+        return ops
+    # forced encodings on arrays inside each encoding's documented domain
+    for n in [1, 2, 19, 100, 257, 1000] + ([5000] if big else []):
+        for t in (0, 1, 2, 3, 5):
+            ops.append(f"adaptive.with t={t} {arr_spec(rng, n)}")
+        span = min(65535, n * rng.choice([1, 3, 40]))
+        if span >= n:
+            vals = sorted(rng.sample(range(0, span + 1), n))
+            ops.append(f"adaptive.with t=4 {explicit(vals)}")
+    for t in (0, 1, 2, 3, 5):
+        ops.append(f"adaptive.with t={t} {explicit([0, M64, 1 << 63, 1])}")
+    ops.append(f"adaptive.with t=4 {explicit(list(range(0, 65536, 13)))}")
+    return ops
